@@ -130,8 +130,14 @@ func intToStr(t *Term, signed bool) *Term {
 		return mkStr(strconv.FormatUint(t.UVal, 10))
 	}
 	i := intOf(t, signed)
+	var digits [256]bool
+	for c := '0'; c <= '9'; c++ {
+		digits[c] = true
+	}
+	digits['-'] = true
 	pos := app("str.from_int", KStr, 0, i)
 	pos.MaxLen = 20
+	pos.Alpha = &digits
 	if !signed {
 		pos.OfInt = i
 		pos.OfBV, pos.OfBVS = t, false
@@ -140,6 +146,7 @@ func intToStr(t *Term, signed bool) *Term {
 	neg := strConcat(mkStr("-"), app("str.from_int", KStr, 0, app("-", KInt, 0, i)))
 	r := Ite(intLt(i, mkInt(0)), neg, pos)
 	r.MaxLen = 21
+	r.Alpha = &digits
 	r.OfInt = i
 	r.OfBV, r.OfBVS = t, true
 	return r
